@@ -8,6 +8,7 @@ package c10
 // that the same oracle as in TestC10Recover applies.
 
 import (
+	"crypto/sha256"
 	"encoding/json"
 	"errors"
 	"fmt"
@@ -42,7 +43,11 @@ type crashCase struct {
 
 // ---- script generator ---------------------------------------------------------------------------
 
-func genScript(t *rapid.T) *crashCase {
+func genScript(t *rapid.T) *crashCase { return genScriptOpt(t, false) }
+
+// genScriptOpt: a rich script always has a second waited phase, a block rotation and datapoints in
+// flight (the first history of every run, so that a small budget sees every instrumented function).
+func genScriptOpt(t *rapid.T, rich bool) *crashCase {
 	cs := &crashCase{Side: "none"}
 	nSeries := rapid.IntRange(1, 3).Draw(t, "nSeries")
 	nMetrics := rapid.IntRange(1, 2).Draw(t, "nMetrics")
@@ -84,21 +89,25 @@ func genScript(t *rapid.T) *crashCase {
 	tick("mname")
 	tick("dps")
 	tick("meta")
-	for k, n := 0, rapid.IntRange(0, 2).Draw(t, "more"); k < n; k++ {
+	more := rapid.IntRange(0, 2).Draw(t, "more")
+	if rich && more == 0 {
+		more = 1
+	}
+	for k, n := 0, more; k < n; k++ {
 		cs.Script = append(cs.Script, stepOp{Op: "ingest", Pts: pts(rapid.IntRange(1, 5).Draw(t, "n"), false)})
 		tick("dps")
 		if rapid.Bool().Draw(t, "metaTick") {
 			tick("meta")
 		}
 	}
-	if rapid.IntRange(0, 2).Draw(t, "rotate") != 0 {
+	if rapid.IntRange(0, 2).Draw(t, "rotate") != 0 || rich {
 		cs.Script = append(cs.Script, stepOp{Op: "rotate"})
 		tick("meta")
 		cs.Script = append(cs.Script, stepOp{Op: "ingest", Pts: pts(rapid.IntRange(1, 4).Draw(t, "n"), false)})
 		tick("dps")
 		tick("meta")
 	}
-	if rapid.IntRange(0, 3).Draw(t, "tail") != 0 {
+	if rapid.IntRange(0, 3).Draw(t, "tail") != 0 || rich {
 		cs.Script = append(cs.Script, stepOp{Op: "ingest", Pts: pts(rapid.IntRange(1, 4).Draw(t, "n"), false)})
 	}
 	return cs
@@ -199,7 +208,8 @@ func tailStr(s string, n int) string {
 // ---- running one case -----------------------------------------------------------------------------
 
 type hitRecord struct {
-	run, rec map[string]int64
+	start    map[string]int64 // hits of the first server before it answered its first command
+	run, rec map[string]int64 // hits of the first server at the end of the script / of the first restart
 }
 
 func (cs *crashCase) allPoints() []recPoint {
@@ -237,6 +247,11 @@ func runCrashCase(cs *crashCase, o *pt.Obs, rec *hitRecord) error {
 		return err
 	}
 	defer e.close()
+	if rec != nil {
+		if err := e.c.Call(&sut.Req{Op: "c10.hits"}, &rec.start); err != nil {
+			return pt.Inconclusivef("reading hit counts: %v", err)
+		}
+	}
 
 	crashedIn := ""
 	call := func(req *sut.Req, out interface{}) (gone bool, err error) {
@@ -414,23 +429,37 @@ func selectPoints(h *hitRecord) []crashPoint {
 			if side == "run" && recoverySide(l) {
 				continue // on an empty data directory: a crash before the server is up
 			}
+			if side == "recover" && strings.HasPrefix(l, "timeBased") {
+				// timer goroutines starting up next to the recovery: the instant of such a crash
+				// relative to the recovery is up to the scheduler (not reproducible)
+				continue
+			}
 			labels = append(labels, l)
 		}
 		sort.Strings(labels)
 		for _, l := range labels {
 			c := int(m[l])
-			ks := map[int]bool{1: true, c: true}
+			lo := 1
+			if side == "run" {
+				// hits during start-up of the first server (timer goroutines reaching their gates)
+				// would kill it before anything was ingested
+				lo = int(h.start[l]) + 1
+			}
+			if c < lo {
+				continue
+			}
+			ks := map[int]bool{lo: true, c: true}
 			if pt.Thorough() {
-				for k := 1; k <= c && k <= 8; k++ {
+				for k := lo; k <= c && k < lo+8; k++ {
 					ks[k] = true
 				}
-				ks[(c+1)/2] = true
-			} else if c > 2 {
-				ks[(c+1)/2] = true
+				ks[(lo+c)/2] = true
+			} else if c > lo+1 {
+				ks[(lo+c)/2] = true
 			}
 			var kl []int
 			for k := range ks {
-				if k >= 1 && k <= c {
+				if k >= lo && k <= c {
 					kl = append(kl, k)
 				}
 			}
@@ -473,15 +502,30 @@ func TestC10Crash(t *testing.T) {
 				return nil, false
 			}
 			// next history: the same for every shard; its crash points are dealt round-robin
-			hist = rapid.Custom(genScript).Example(int(seed)*100003 + histNo + 1)
+			rich := histNo == 0
+			hist = rapid.Custom(func(t *rapid.T) *crashCase { return genScriptOpt(t, rich) }).Example(int(seed)*100003 + histNo + 1)
 			histNo++
 			rec := &hitRecord{}
 			if err := runCrashCase(hist, &pt.Obs{}, rec); err != nil {
 				t.Logf("history %d: record run: %v", histNo, err)
+				failed := hist
 				hist = nil
+				var inc *pt.Inconclusive
+				if !errors.As(err, &inc) {
+					// the history fails without any crash point (plain kill at its end): hand it to
+					// the runner as a case of its own, so that it is reported with a replay file
+					emitted++
+					return failed, true
+				}
 				continue
 			}
 			all := selectPoints(rec)
+			// deal the points in a seeded pseudo-random order, so that a small budget is spread over all functions
+			key := func(p crashPoint) string {
+				h := sha256.Sum256([]byte(fmt.Sprintf("%d/%d/%s/%s/%d", seed, histNo, p.side, p.label, p.k)))
+				return string(h[:8])
+			}
+			sort.SliceStable(all, func(a, b int) bool { return key(all[a]) < key(all[b]) })
 			points = points[:0]
 			for j, p := range all {
 				if j%shards == shard {
